@@ -15,7 +15,7 @@ pub fn def() -> PropDef {
     PropDef {
         info: PropInfo {
             id: "C08",
-            rule: "programs with 1-4 helper call sites, on each of the four VM kinds; helpers are registered in an order that is a function of the case (listed, reversed, rotated, shuffled); helper ids from {0,1,6,0x7fffffff,0x80000000,0xffffffff,random u32}, a random subset registered onto three distinct instrumented 5-argument helpers; each site loads five boundary-heavy, pairwise distinct arguments into r1-r5, keeps sentinels in r6-r9 and a spilled copy of r10, runs under a stack-usage calculator returning a generated frame size from {0,8,16,24,40,56} for every function, and is placed at top level or inside local functions at depth 1-8, the deepest legal nesting (interpreter and JIT; Cranelift gets the top-level-only programs); call instructions carry junk dst/off fields; unregistered ids are placed on executed or on never-executed paths. Every helper is entered through an assembly stub that records rsp. Oracle per engine: log of (function identity, a1..a5) equals the reference model's call sequence, (rsp+8)%16==0 at every call, result equals the model, sentinels and r10 fold to the expected value; an unregistered id gives an interpreter Err only if reached (and Ok with the model value if not), gives a compile-time Err from both compilers, and nothing is invoked beyond the model's log. Non-trivial = at least one executed helper call with pairwise distinct arguments; distinct by hash.",
+            rule: "programs with 1-4 helper call sites, on each of the four VM kinds; helpers are registered in an order that is a function of the case (listed, reversed, rotated, shuffled); helper ids from {0,1,6,0x7fffffff,0x80000000,0xffffffff,random u32}, a random subset registered onto three distinct instrumented 5-argument helpers; each site loads five boundary-heavy, pairwise distinct arguments into r1-r5, keeps sentinels in r6-r9 and a spilled copy of r10, runs under a stack-usage calculator returning a generated frame size from {0,8,16,24,40,56,256} for every function or under no calculator at all (default 256-byte frames), and is placed at top level or inside local functions at depth 1-8, the deepest legal nesting (depth 1 with 256-byte frames) (interpreter and JIT; Cranelift gets the top-level-only programs); call instructions carry junk dst/off fields; unregistered ids are placed on executed or on never-executed paths. Every helper is entered through an assembly stub that records rsp. Oracle per engine: log of (function identity, a1..a5) equals the reference model's call sequence, (rsp+8)%16==0 at every call, result equals the model, sentinels and r10 fold to the expected value; an unregistered id gives an interpreter Err only if reached (and Ok with the model value if not), gives a compile-time Err from both compilers, and nothing is invoked beyond the model's log. Non-trivial = at least one executed helper call with pairwise distinct arguments; distinct by hash.",
             assumptions: &["the Rust-ABI helper type coincides with the C ABI for five u64 arguments on x86-64 (rbpf's JITs rely on the same fact)", "reference model for register effects of call/exit"],
         },
         run,
@@ -54,7 +54,7 @@ pub fn hprog(max_depth: u8) -> impl Strategy<Value = HProg> {
     let ids = prop::collection::vec((id_strategy(), prop_oneof![6 => prop::sample::select(vec![0u8, 1, 6]).prop_map(Some), 1 => Just(None)]), 1..4);
     let site = (any::<u8>(), [interesting_u64(), interesting_u64(), interesting_u64(), interesting_u64(), interesting_u64()], 0..=max_depth, any::<u32>(), prop::bool::weighted(0.1))
         .prop_map(|(id_sel, args, depth, junk, dead)| Site { id_sel, args, depth, junk, dead });
-    (ids, prop::collection::vec(site, 1..5), [interesting_u64(), interesting_u64(), interesting_u64(), interesting_u64()], 0u8..4, prop::sample::select(vec![0u16, 0, 8, 16, 24, 40, 56]))
+    (ids, prop::collection::vec(site, 1..5), [interesting_u64(), interesting_u64(), interesting_u64(), interesting_u64()], 0u8..4, prop::sample::select(vec![0u16, 0, 8, 16, 24, 40, 56, 256, 257]))
         .prop_map(|(ids, sites, sentinels, vm, frame)| HProg { ids, sites, sentinels, vm, frame })
 }
 
@@ -64,6 +64,19 @@ fn lddw(out: &mut Vec<Insn>, dst: u8, v: u64) {
 }
 
 pub fn lower(p: &HProg) -> ExecCase {
+    // frame 256 = no calculator at all (the default frames), 257 = a calculator that returns the
+    // default size 256; with 256-byte frames only one level of nesting fits into the stack
+    let clamped;
+    let p = if p.frame >= 256 {
+        let mut q = p.clone();
+        for s in q.sites.iter_mut() {
+            s.depth = s.depth.min(1);
+        }
+        clamped = q;
+        &clamped
+    } else {
+        p
+    };
     let mut ids = p.ids.clone();
     ids.sort_by_key(|x| x.0);
     ids.dedup_by_key(|x| x.0);
@@ -151,7 +164,11 @@ pub fn lower(p: &HProg) -> ExecCase {
     }
     case.helpers = ids.iter().filter_map(|(id, p)| p.map(|p| (*id, p))).collect();
     // nested chains deeper than one level need small frames: 512 / 256 only allows depth 1
-    case.calc = Some((vec![], p.frame));
+    case.calc = match p.frame {
+        256 => None,
+        257 => Some((vec![], 256)),
+        f => Some((vec![], f)),
+    };
     case
 }
 
